@@ -415,7 +415,7 @@ Proof.
                         match l with
                         | [] => []
                         | None :: l' => go l' (k + 1)
-                        | Some v :: l' => (KI k, mkP v true true true) :: go l' (k + 1)
+                        | Some v :: l' => (KI k, mkP v (match v with VGet _ _ _ _ _ => false | _ => true end) true true) :: go l' (k + 1)
                         end) l k) = Some p -> i < k + Z.of_nat (length l)).
     { induction l0 as [ | [v | ] l0 IH]; intros k i p; cbn [lookup length].
       - discriminate.
